@@ -88,7 +88,8 @@ def run(chk):
             spec["g"] = (t, extra + ["k"])
             spec["h"] = ("not", ["g"])
             const_models.append((f"{t}-with-const{kc}-{len(extra)}", build(spec, outputs=["h"])))
-    wide_models = list(one_gate_circuits(max_arity=5 if chk.tier == "quick" else 6, types=["and", "nand", "or", "nor"]))
+    # (wide gates: an encoding may treat gates above some fan-in differently - 7 in the quick tier, 8 in the thorough one)
+    wide_models = list(one_gate_circuits(max_arity=7 if chk.tier == "quick" else 8, types=["and", "nand", "or", "nor"]))
     wide_models = [(k, c) for k, c in wide_models if int(k[-1]) >= 4]
     name_models = []
     for order in (["a", "b", "g", "a_not", "h"], ["a", "b", "a_not", "g", "h"]):
